@@ -107,6 +107,35 @@ def boundary_docs():
     return [(d, [xmlgen.render(d, st)]) for d in docs]
 
 
+def interaction_texts():
+    """small documents built systematically (not randomly) around two kinds of neighbourhood:
+    (1) the ORDER of declarations in the internal subset - an entity, attribute lists (two for one element type, one of them
+        using the entity in a default), a notation, an unparsed entity, an element declaration, a comment, a PI - in every order in
+        which each entity is declared before it is used;
+    (2) character data next to markup: text that ends in `]`/`]]`, then a comment / element / PI / reference / CDATA section,
+        then text that begins with `>` or `]>` (what a printer that tracks `]]>` across items has to get right)"""
+    import itertools
+    out = []
+    decls = {"A1": '<!ATTLIST r a CDATA "1">', "E": '<!ENTITY e "x">', "A2": '<!ATTLIST r b CDATA "&e;" c CDATA #FIXED "[&e;]">',
+             "A3": "<!ATTLIST k z CDATA 'v'>", "N": "<!NOTATION n SYSTEM 's'>", "U": "<!ENTITY u SYSTEM 'f' NDATA n>",
+             "L": "<!ELEMENT r ANY>", "C": "<!--c-->", "P": "<?p d?>"}
+    for k in (3, 4, 5):
+        for combo in itertools.combinations(sorted(decls), k):
+            if "A2" not in combo and "U" not in combo:
+                continue
+            for perm in itertools.permutations(combo):
+                if "A2" in perm and ("E" not in perm or perm.index("E") > perm.index("A2")):
+                    continue
+                out.append("<!DOCTYPE r [%s]><r><k/></r>" % "".join(decls[x] for x in perm))
+                if len(out) > 900:
+                    break
+    for left in ("]]", "a]]", "]", "a[b[0]]", "x", "]]]"):
+        for mid in ("<!--c-->", "<b/>", "<?p?>", "&amp;", "<![CDATA[x]]>", "&#65;", "<![CDATA[]]>", "<b>]]</b>", "&gt;"):
+            for right in (">", ">c", "]>", "]]", "&gt;", ""):
+                out.append("<r>%s%s%s</r>" % (left, mid, right))
+    return out
+
+
 # documents whose character data / attribute values come out of entity expansion (property C01: "character data after
 # reference expansion"): (text, expected string(/*), expected string(/*/@t)) by XML 1.0 4.4 / 3.3.3
 EXPANSION_DOCS = [
